@@ -40,6 +40,7 @@ Definition cException := 7.
 Definition cOSError := 8.
 Definition cMethodNotImplemented := 9.
 Definition cAttributeError := 10.
+Definition cIPCError := 11.
 
 Record exn := { ecls : N; emro : list N }.
 Definition mk_exn (c : N) (mro : list N) : exn := {| ecls := c; emro := mro |}.
@@ -112,7 +113,7 @@ Definition std_cfg : cfg := {|
   c_fchecks := [FName; FType; FNullable];
   c_dbranches := [DDataclass; DEnum; DDict; DFrozenset];
   c_conv := [cKeyError; cValueError];
-  c_400 := [cArrowInvalid; cTypeError; cStopIteration; cRpcError; cVersionError];
+  c_400 := [cArrowInvalid; cOSError; cTypeError; cStopIteration; cRpcError; cVersionError];
   c_other_status := 500;
   c_marker_status := 500
 |}.
